@@ -61,6 +61,24 @@ def m_chars(ex, callee, args, pc, store, depth):
     yield ("value", Iter("vec", cells=cells), pc, store)
 
 
+@front(r"^core::str::<impl str>::matches::<(char|&str)>$|^str::<impl str>::matches::<(char|&str)>$")
+def m_str_matches(ex, callee, args, pc, store, depth):
+    """str::matches on a concrete string and pattern: the non-overlapping occurrences, left to right."""
+    v, pat = deref_all(store, args[0]), deref_all(store, args[1])
+    sv, pv = (z3.simplify(x.t) if isinstance(x, Str) else None for x in (v, pat))
+    if sv is None or pv is None or not z3.is_string_value(sv) or not z3.is_string_value(pv):
+        raise Unsupported("matches() on strings that are not concrete")
+    text, needle = mirfmt.mirx_string(sv), mirfmt.mirx_string(pv)
+    n = text.count(needle) if needle else 0
+    yield ("value", Iter("vec", cells=tuple(ex.world.new(store, Str(z3.StringVal(needle))) for _ in range(n))), pc, store)
+
+
+@front(r" as Iterator>::count$")
+def m_iter_count(ex, callee, args, pc, store, depth):
+    for items, pcx, stx in ex.iter_items(args[0], pc, store, depth):
+        yield ("value", BV(z3.BitVecVal(len(items), 64), 64, False), pcx, stx)
+
+
 @front(r"^<\w+ as std::fmt::Write>::write_char$")
 def m_write_char(ex, callee, args, pc, store, depth):
     out = args[0].cell
@@ -299,7 +317,7 @@ def scan_format(fmt):
     return True, count, pieces
 
 
-FORMATS = [("~", 1), ("a~b~c", 2), ("~~", 2), ("\\~~\\n", 1), ("x", 0), ("", 0), ("~", 0), ("~~", 1), ("x", 1), ("~", 2), ("\\q~", 1), ("~\\q", 1),
+FORMATS = [("~", 1), ("a\\\\~b", 1), ("\\\\~", 0), ("a~b~c", 2), ("~~", 2), ("\\~~\\n", 1), ("x", 0), ("", 0), ("~", 0), ("~~", 1), ("x", 1), ("~", 2), ("\\q~", 1), ("~\\q", 1),
            ("é~世", 1), ("\\\"~\\\\~\\t\\r", 2), ("~, ~, ~", 3), ("~ ~", 3)]
 
 
@@ -322,7 +340,7 @@ def main():
         print(json.dumps(res))
         return
     quick = len(sys.argv) > 1 and sys.argv[1] == "quick"
-    formats = FORMATS[:9] if quick else FORMATS
+    formats = FORMATS[:11] if quick else FORMATS
     for fmt, nargs in formats:
         ex = mirx.Executor(bodies, enums, structs, max_depth=60, loop_bound=40)
         store = {}
